@@ -137,6 +137,8 @@ theorem recognise_secure (db : Db) (now : Int) (h : Str) (u : User)
     (hr : db.recognise now h = some u) (hsec : u.secure = true) :
     ∃ p ∈ u.hostmasks, glob p h = true := by
   unfold Db.recognise at hr
+  split at hr
+  · cases hr
   cases hl : db.lookup now h with
   | found v =>
     rw [hl] at hr
